@@ -95,7 +95,7 @@ def sh(cmd, timeout=1800, cwd=None, env=None):
 
 def coq_sources():
     out = []
-    for sub in ('Model', 'Proofs', 'Checks', 'Props', 'Refuted'):
+    for sub in ('Model', 'Gen', 'Proofs', 'Checks', 'Props', 'Refuted'):
         d = os.path.join(COQ, sub)
         if os.path.isdir(d):
             for f in sorted(os.listdir(d)):
@@ -128,10 +128,12 @@ def forbidden_scan():
 
 
 def build_coq():
-    """Full .vo build of the development (serialised with flock). Returns (ok, log)."""
-    cmd = ('flock %s/.buildlock sh -c "cd %s && '
+    """Full .vo build of the development (serialised with flock). Gen/ManagerGen.v is first regenerated from the
+    CURRENT source of the repository by the translator (harness/pytrans.py). Returns the tail of the build log."""
+    gen = os.path.join(os.path.dirname(os.path.abspath(__file__)), 'pytrans.py')
+    cmd = ('flock %s/.buildlock sh -c "cd %s && VERIF_REPO=%s python3 %s; '
            'coq_makefile -f _CoqProject %s -o Makefile >/dev/null && '
-           'timeout 1500 make -j16 -k 2>&1 | tail -40"' % (COQ, COQ, ' '.join(coq_sources())))
+           'timeout 1500 make -j16 -k 2>&1 | tail -40"' % (COQ, COQ, REPO, gen, ' '.join(coq_sources())))
     rc, out = sh(cmd, timeout=1700)
     return out
 
